@@ -59,12 +59,22 @@ with sarm : Type :=
 Record reducers : Type := mkReducers { r_all : value; r_any : value; r_and : value; r_or : value }.
 
 (* ---- admissibility of binary operators (bin_op.rs::can_be_used) ---- *)
-Definition assign_ok (lhs rhs : ty) (cbu : ty -> ty -> bool) (rtf : ty -> ty -> outcome ty) : outcome bool :=
+Definition assign_ok_single (lhs rhs : ty) (cbu : ty -> ty -> bool) (rtf : ty -> ty -> outcome ty) : outcome bool :=
   match mut_element_type_spec lhs with
   | None => Ok false
   | Some vt =>
       let c := cbu vt rhs in
       obind (rtf vt rhs) (fun r => Ok (c && matches r vt))
+  end.
+
+(* cells are invariant: a target of type `mut A | mut B` must admit the assignment member by member *)
+Definition assign_ok (lhs rhs : ty) (cbu : ty -> ty -> bool) (rtf : ty -> ty -> outcome ty) : outcome bool :=
+  match lhs with
+  | TMulti ms =>
+      fold_left (fun (acc : outcome bool) (m : ty) =>
+                   obind acc (fun a : bool => if a then assign_ok_single m rhs cbu rtf else Ok false))
+                ms (Ok true)
+  | _ => assign_ok_single lhs rhs cbu rtf
   end.
 
 Definition arith_assign_rt (l r : ty) : outcome ty :=
